@@ -29,6 +29,15 @@ var Root = func() string {
 	return "/verif"
 }()
 
+// maxViol stops enumeration early once this many distinct violations were
+// seen (VERIF_MAXVIOL raises it when classifying findings).
+var maxViol = func() int {
+	if n, err := strconv.Atoi(os.Getenv("VERIF_MAXVIOL")); err == nil && n > 0 {
+		return n
+	}
+	return 100
+}()
+
 type Finding struct {
 	Property    string `json:"property"`
 	Status      string `json:"status"` // "known" | "fixed"
@@ -226,7 +235,7 @@ func (c *Ctx) Violation(sig string, detail any) {
 		return
 	}
 	c.violSeen[sig] = true
-	if len(c.viol) < 200 {
+	if len(c.viol) < 2*maxViol {
 		c.viol = append(c.viol, Violation{sig, detail})
 	}
 }
@@ -271,7 +280,7 @@ func (c *Ctx) Par(n int, f func(i int)) {
 				if i >= n {
 					return
 				}
-				if c.Expired() || c.Violations() > 100 {
+				if c.Expired() || c.Violations() > maxViol {
 					return
 				}
 				f(i)
